@@ -201,8 +201,8 @@ func c02(c *Ctx) {
 			switch {
 			case strings.Contains(v, "☢"):
 				sig = "C02/sentinel-in-value" // one root cause: the eraser works on the finished buffer
-			case s.name == "attributes-map-value":
-				sig = "C02/attributes-separator"
+			case s.name == "attributes-map-value" && classify(rc, ji) == "attributes-command":
+				sig = "C02/attributes-separator" // the output is the intent minus the separating blank, and nothing else
 			}
 			c.fail(sig, fmt.Sprintf("site %s in context %s, value %q: %s", s.name, cx.name, v, what), extra)
 		}
